@@ -43,7 +43,7 @@ pub(crate) fn create_tcp_channel(
     listener: Box<dyn Listener<ClientState>>,
     options: ClientOptions,
 ) -> (Channel, ClientTask) {
-    let (tx, rx) = tokio::sync::mpsc::channel(options.max_queued_requests);
+    let (tx, rx) = tokio::sync::mpsc::channel(options.max_queued_requests.max(1)); // a queue of 0 would panic
     let task = TcpChannelTask::new(
         host,
         rx.into(),
